@@ -132,7 +132,9 @@ ares_status_t ares_send_nolock(ares_channel_t *channel, ares_server_t *server,
     if (status != ARES_ENOTFOUND) {
       /* ARES_SUCCESS means we retrieved the cache, anything else is a critical
        * failure, all result in termination */
+      ares_qcache_callback_begin(channel->qcache);
       callback(arg, status, 0, dnsrec_resp);
+      ares_qcache_callback_end(channel->qcache);
       return status;
     }
   }
